@@ -74,3 +74,16 @@ pub open spec fn AuxiliaryData_enc(x: AuxiliaryData) -> Seq<Tok> {
         seq![Tok::Tag(259), Tok::Map(aux_count(x) as u64)] + aux_entry(0, x.metadata) + aux_entry(1, x.native_scripts) + aux_plutus(x.plutus_scripts)
     }
 }
+// redeemers = [ + [ tag, index, data, ex_units ] ] / { + [ tag, index ] => [ data, ex_units ] }   (conway.cddl); the map form is the default
+pub open spec fn Redeemer_key(x: Redeemer) -> Seq<Tok> { seq![Tok::Arr(2)] + x.tag.enc() + x.index.enc() }
+pub open spec fn Redeemer_val(x: Redeemer) -> Seq<Tok> { seq![Tok::Arr(2)] + x.data.enc() + x.ex_units.enc() }
+pub open spec fn red_items(s: Seq<Redeemer>, as_map: bool) -> Seq<Tok> decreases s.len() {
+    if s.len() == 0 { Seq::empty() } else { red_items(s.drop_last(), as_map) + (if as_map { Redeemer_key(s.last()) + Redeemer_val(s.last()) } else { Redeemer_enc(s.last()) }) }
+}
+pub proof fn lemma_red_step(s: Seq<Redeemer>, i: int, as_map: bool) requires 0 <= i < s.len()
+    ensures red_items(s.take(i + 1), as_map) == red_items(s.take(i), as_map) + (if as_map { Redeemer_key(s[i]) + Redeemer_val(s[i]) } else { Redeemer_enc(s[i]) })
+{ assert(s.take(i + 1).drop_last() =~= s.take(i)); }
+pub open spec fn Redeemers_as_map(x: Redeemers) -> bool { match x.serialization_format { Some(f) => f is Map, None => true } }
+pub open spec fn Redeemers_enc(x: Redeemers) -> Seq<Tok> {
+    if Redeemers_as_map(x) { seq![Tok::Map(x.redeemers@.len() as u64)] + red_items(x.redeemers@, true) } else { seq![Tok::Arr(x.redeemers@.len() as u64)] + red_items(x.redeemers@, false) }
+}
